@@ -15,7 +15,8 @@ pid, n = sys.argv[1], sys.argv[2]
 caught = sys.argv[3] if len(sys.argv) > 3 else ""
 wt = f"/tmp/seed/{pid}"
 sd = f"{wt}/_seed/{n}"
-demo = [f for f in os.listdir(sd) if f.endswith(".py")][0]
+_py = sorted(f for f in os.listdir(sd) if f.endswith(".py"))
+demo = [f for f in _py if f in ("demo.py", "test_demo.py")][0] if any(f in ("demo.py", "test_demo.py") for f in _py) else _py[0]
 
 
 def sh(cmd, cwd=wt):
@@ -56,6 +57,9 @@ dst = f"/verif/seeded/{pid}-{n}"
 os.makedirs(dst, exist_ok=True)
 shutil.copy(f"{sd}/patch.diff", dst)
 shutil.copy(f"{sd}/{demo}", dst)
+for extra in _py:
+    if extra != demo:
+        shutil.copy(f"{sd}/{extra}", dst)  # helper modules the demo imports
 meta = json.load(open(f"{sd}/meta.json"))
 out = {"property": pid, "summary": meta.get("summary"), "needs": meta.get("needs"), "author": "independent sub-agent (given only the property text and a scratch worktree)",
        "confirmed_by_me": ran, "checks": caught, "demo": demo}
